@@ -514,19 +514,40 @@ func execFuzz(in string) Result {
 		line string
 		err  error
 	}
-	ch := make(chan answer, 1)
-	go func() {
-		fmt.Fprintf(p.in, "%s %x\n", target, data)
-		l, err := p.out.ReadString('\n')
-		ch <- answer{l, err}
-	}()
 	outcome := 0
 	nontrivial := false
 	var a answer
-	select {
-	case a = <-ch:
-	case <-time.After(fuzzTimeout + 30*time.Second): // backstop; the child's own watchdog fires at fuzzTimeout
-		outcome = 2
+	ask := func() {
+		outcome = 0
+		ch := make(chan answer, 1)
+		q := p
+		go func() {
+			fmt.Fprintf(q.in, "%s %x\n", target, data)
+			l, err := q.out.ReadString('\n')
+			ch <- answer{l, err}
+		}()
+		select {
+		case a = <-ch:
+		case <-time.After(fuzzTimeout + 30*time.Second): // backstop; the child's own watchdog fires at fuzzTimeout
+			outcome = 2
+		}
+	}
+	ask()
+	if outcome == 0 && (a.err != nil || !strings.HasPrefix(a.line, "R ")) {
+		// The child died.  It has served many inputs before this one: confirm on a fresh child that
+		// THIS input kills it (a crasher is deterministic; a death that does not repeat is noted).
+		first := p.stderr.String()
+		if i := strings.Index(first, "\n"); i > 0 {
+			first = first[:i]
+		}
+		p.kill()
+		p = spawnFuzzChild()
+		ask()
+		if outcome == 0 && a.err == nil && strings.HasPrefix(a.line, "R ") {
+			fuzzMu.Lock()
+			note(fmt.Sprintf("a child died (%s) while running %s but a fresh child processed the same input: not attributed to the input", first, in))
+			fuzzMu.Unlock()
+		}
 	}
 	el := time.Since(t0)
 	fuzzMu.Lock()
